@@ -1390,12 +1390,18 @@ pub fn decode_case(_prop: &str, u: &mut arbitrary::Unstructured) -> Case {
             _ => {
                 piles += 1;
                 let by = Who::User(d_user(u));
-                let n = 8 + arb_below(u, 18);
+                let n = if arb_bool(u, 1, 4) { 31 + arb_below(u, 15) } else { 8 + arb_below(u, 18) };
                 let d = d_pm1(u);
                 ops.push(Op::Bond { by, amt: Amt::Abs(N(5000)) });
                 for i in 0..n {
                     ops.push(Op::Unbond { by, amt: Amt::Abs(N(1 + i as u128 % 3)) });
                     ops.push(Op::Advance { blocks: 1 + (i as u16 % 2), secs: 5, nanos: 0 });
+                }
+                if n > 30 {
+                    ops.push(Op::Advance { blocks: 299, secs: 199_999, nanos: 0 });
+                    ops.push(Op::Claim { by });
+                    ops.push(Op::Claim { by });
+                    continue;
                 }
                 ops.push(Op::AdvanceToRelease { by, d, fine: false });
                 ops.push(Op::Claim { by });
